@@ -3,7 +3,13 @@
 
 Part A is the product below; part B repeats the 9 single-carrier members and the full member with
 the inputs in a directory whose name contains a blank (make's reading of the file then depends on
-`\\ ` escapes).
+`\\ ` escapes). Part C enumerates the SPELLING of the path by which each carrier is named (plain,
+`./`, `dir/../` through a real directory, through a symlinked directory, `symlink/../` where
+lexical folding names another file - with and without a stale decoy at the folded name -, a
+symlink to the file itself; each relative and absolute) at every site a path is written: the
+command line, a -L directory, inside INPUT()/GROUP(), a thin archive's member name. There the
+files a link read are observed through their access times, and a prerequisite denotes the file
+that stat() from the link's working directory gives, identified by (st_dev, st_ino).
 
 Exhaustive program-family exploration: every non-empty subset of nine input carriers x {each
 file once / twice} x {relative / absolute command-line paths} x {executable / shared object}
@@ -407,6 +413,503 @@ def other_linkers_on_blank(indir_b):
     return out
 
 
+# ------------------------------------------------------------------------------------------------
+# Part C: the SPELLING of the path by which a carrier is named.
+#
+# Tree (one private copy per worker process, so that access times can be observed):
+#   <root>/proj/                     working directory of the link (and of make)
+#   <root>/proj/X                    "home" copy of every carrier file X (content variant 0); in the
+#                                    no-decoy tree the carriers are absent here
+#   <root>/proj/rd/                  a real, empty directory:        rd/../X  == proj/X
+#   <root>/proj/sd -> ../store/alt   a symlinked directory:          sd/X     == store/alt/X
+#   <root>/proj/sl -> ../store/v1/objs   a symlinked directory:      sl/../X  == store/v1/X, while
+#                                    the lexically folded name X is proj/X (the stale decoy)
+#   <root>/proj/fl/X -> ../../store/files/X   a symlink to the file itself
+#   <root>/store/{v1,alt,files}/X    other copies (content variant 1: objects have one more
+#                                    instruction, texts one more newline), all distinct inodes
+#   <root>/proj/tq_<spelling>.a      thin archive whose member name is the spelled path of tm.o
+#   <root>/proj/sq_<spelling>.ld     INPUT(<spelled path of si1.o>);  sgq_...: GROUP(...)
+#
+# Which files a link read is OBSERVED, without any linker: the access time of every regular file of
+# the tree is set to 1970 before the link; read() and mmap() update it (tmpfs, relatime), open()
+# and stat() do not. The family's own expectation is only used to cross-check that observation.
+SPELLINGS = ["plain", "dot", "realdir-dotdot", "dot-realdir-dotdot", "symlinkdir",
+             "symlinkdir-dotdot", "file-symlink"]
+SPELL_FMT = {"plain": "{}", "dot": "./{}", "realdir-dotdot": "rd/../{}",
+             "dot-realdir-dotdot": "./rd/./../rd/.././{}", "symlinkdir": "sd/{}",
+             "symlinkdir-dotdot": "sl/../{}", "file-symlink": "fl/{}"}
+SITES = ["obj", "ar", "thin", "thin-member", "script-input", "script-inner", "script-T",
+         "version-script", "export-list", "lib", "so"]
+SITE_CARRIER = {"thin-member": "thin", "script-inner": "script-input"}
+TOKEN_SITE = {"o1.o": "obj", "ra.a": "ar", "ta.a": "thin", "si.ld": "script-input",
+              "sg.ld": "script-input", "ts.ld": "script-T", "vs.txt": "version-script",
+              "dl.txt": "export-list", "L": "lib", "s1.so": "so"}
+OUTER_SITES = [s for s in SITES if s not in SITE_CARRIER]
+# The second all-sites member: thin archive and INPUT script are plain, the names inside them
+# are spelled (the two cannot be combined with the spelled containers: one symbol, two definitions).
+ALL_INNER_SITES = [s for s in SITES if s not in ("thin", "script-input")]
+HOME_ONLY = ["main.o", "r_ar.o", "r_thin.o", "r_lib.o", "r_so.o"]
+LOGICAL = ["o1.o", "ra.a", "ta.a", "tm.o", "si.ld", "sg.ld", "si1.o", "ts.ld", "vs.txt", "dl.txt",
+           "L/libzz.a", "s1.so"]
+ATIME0 = 1_000_000_000       # ns: 1 s after the epoch
+DUPMODES = ["once", "twice-same-spelling", "twice-plain-and-spelled"]
+
+
+def spell_variants():
+    """(spelling, absolute, decoy) triples; the decoy axis only exists where lexical folding would
+    name another path."""
+    out = []
+    for sp in SPELLINGS:
+        for ab in (False, True):
+            out.append((sp, ab, True))
+            if sp == "symlinkdir-dotdot":
+                out.append((sp, ab, False))
+    return out
+
+
+def spid_of(sp, ab, decoy=True):
+    return ("abs-" if ab else "") + sp + ("" if decoy else "-nodecoy")
+
+
+def spelled(sp, ab, proj, rel):
+    p = SPELL_FMT[sp].format(rel)
+    return proj + "/" + p if ab else p
+
+
+def ar_bytes(members, thin=False):
+    """GNU archive (with symbol table; long-name table when needed). members: (name, data,
+    [global symbols]). A thin archive stores only the headers; its names are paths relative to
+    the archive's directory (or absolute) and always go to the long-name table here."""
+    import struct
+    longnames, hnames = b"", []
+    for name, _, _ in members:
+        if thin or len(name) > 15 or "/" in name:
+            hnames.append("/%d" % len(longnames))
+            longnames += name.encode() + b"/\n"
+        else:
+            hnames.append(name + "/")
+
+    def hdr(n, size):
+        return ("%-16s%-12d%-6d%-6d%-8s%-10d`\n" % (n, 0, 0, 0, "644", size)).encode()
+
+    def pad(b):
+        return b + (b"\n" if len(b) & 1 else b"")
+
+    symnames = b"".join(s.encode() + b"\0" for _, _, ss in members for s in ss)
+    nsyms = sum(len(ss) for _, _, ss in members)
+    symsize = 4 + 4 * nsyms + len(symnames)
+    pos = 8 + 60 + symsize + (symsize & 1)
+    if longnames:
+        pos += 60 + len(longnames) + (len(longnames) & 1)
+    offs, body = [], b""
+    for (name, data, syms), hn in zip(members, hnames):
+        offs.extend([pos] * len(syms))
+        chunk = hdr(hn, len(data)) + (b"" if thin else pad(data))
+        body += chunk
+        pos += len(chunk)
+    sym = struct.pack(">I", nsyms) + b"".join(struct.pack(">I", o) for o in offs) + symnames
+    out = (b"!<thin>\n" if thin else b"!<arch>\n") + hdr("/", len(sym)) + pad(sym)
+    if longnames:
+        out += hdr("//", len(longnames)) + pad(longnames)
+    return out + body
+
+
+def _obj(name, variant):
+    with open(vlib.assemble(SOURCES[name] + ("  nop\n" if variant else "")), "rb") as f:
+        return f.read()
+
+
+def carrier_bytes(variant, so_path):
+    """Contents of the 12 carrier files (name relative to a location directory)."""
+    out = {n: _obj(n, variant) for n in ("o1.o", "tm.o", "si1.o")}
+    out["ra.a"] = ar_bytes([("ra1.o", _obj("ra1.o", variant), ["f_ar"]),
+                            ("ra2.o", _obj("ra2.o", variant), ["f_ar2"])])
+    out["ta.a"] = ar_bytes([("tm.o", out["tm.o"], ["f_thin"])], thin=True)
+    out["L/libzz.a"] = ar_bytes([("zz.o", _obj("zz.o", variant), ["f_lib"])])
+    with open(so_path, "rb") as f:
+        out["s1.so"] = f.read()
+    for n, t in TEXTS.items():
+        out[n] = (t + ("\n" if variant else "")).encode()
+    return out
+
+
+def build_so_variants(d):
+    """s1.so in both content variants (needs a linker: GNU ld), made once by the parent."""
+    os.makedirs(d, exist_ok=True)
+    paths = []
+    for v in (0, 1):
+        o = os.path.join(d, f"so{v}.o")
+        with open(o, "wb") as f:
+            f.write(_obj("so.o", v))
+        sh(["ld", "-shared", "-soname", "s1.so", "-o", f"s1_v{v}.so", f"so{v}.o"], d)
+        paths.append(os.path.join(d, f"s1_v{v}.so"))
+    return paths
+
+
+class Tree:
+    pass
+
+
+def build_tree(root, decoy, so_paths):
+    t = Tree()
+    t.root, t.decoy = root, decoy
+    t.proj = proj = os.path.join(root, "proj")
+    for d in ("proj/o", "proj/rd", "proj/fl/L", "store/v1/objs", "store/v1/L", "store/alt/L",
+              "store/files/L"):
+        os.makedirs(os.path.join(root, d))
+    os.symlink("../store/alt", os.path.join(proj, "sd"))
+    os.symlink("../store/v1/objs", os.path.join(proj, "sl"))
+
+    def put(path, data):
+        with open(path, "wb") as f:
+            f.write(data)
+
+    for n in HOME_ONLY:
+        put(os.path.join(proj, n), _obj(n, 0))
+    locs = [("store/v1", 1), ("store/alt", 1), ("store/files", 1)]
+    if decoy:
+        os.makedirs(os.path.join(proj, "L"))
+        locs.append(("proj", 0))
+    for loc, variant in locs:
+        for n, data in carrier_bytes(variant, so_paths[variant]).items():
+            put(os.path.join(root, loc, n), data)
+    for n in LOGICAL:
+        os.symlink("../" * (2 + n.count("/")) + "store/files/" + n, os.path.join(proj, "fl", n))
+    tm = _obj("tm.o", 1)
+    for sp, ab, dc in spell_variants():
+        if dc != decoy:
+            continue        # the no-decoy tree only serves the symlinkdir-dotdot-nodecoy variants
+        sid = spid_of(sp, ab, dc)
+        put(os.path.join(proj, f"tq_{sid}.a"),
+            ar_bytes([(spelled(sp, ab, proj, "tm.o"), tm, ["f_thin"])], thin=True))
+        put(os.path.join(proj, f"sq_{sid}.ld"),
+            f"INPUT({spelled(sp, ab, proj, 'si1.o')})\n".encode())
+        put(os.path.join(proj, f"sgq_{sid}.ld"),
+            f"GROUP({spelled(sp, ab, proj, 'si1.o')})\n".encode())
+    # Every regular file of the tree (outputs excluded): path, (dev, ino), mtime, label.
+    t.tracked = []
+    t.label = {}
+    for dp, dns, fns in os.walk(root):
+        if dp == os.path.join(proj, "o"):
+            continue
+        for fn in fns:
+            p = os.path.join(dp, fn)
+            st = os.lstat(p)
+            if not os.path.islink(p):
+                ident = (st.st_dev, st.st_ino)
+                t.tracked.append((p, ident, st.st_mtime_ns))
+                t.label[ident] = os.path.relpath(p, root)
+    # Self-test of the observation.
+    t.reset_atimes = lambda: [os.utime(p, ns=(ATIME0, mt)) for p, _, mt in t.tracked]
+    t.reset_atimes()
+    probe = t.tracked[0][0]
+    with open(probe, "rb") as f:
+        f.read(1)
+    t.atime_works = os.stat(probe).st_atime_ns != ATIME0 and \
+        os.stat(t.tracked[1][0]).st_atime_ns == ATIME0
+    return t
+
+
+def files_read(t):
+    return {ident for p, ident, _ in t.tracked if os.stat(p).st_atime_ns != ATIME0}
+
+
+def logical_of(label):
+    """store/v1/L/libzz.a -> L/libzz.a; proj/tq_x.a -> ta.a; proj/sq_x.ld -> si.ld."""
+    for pre in ("store/v1/", "store/alt/", "store/files/", "proj/"):
+        if label.startswith(pre):
+            label = label[len(pre):]
+            break
+    if label.startswith("tq_"):
+        return "ta.a"
+    if label.startswith("sq_"):
+        return "si.ld"
+    if label.startswith("sgq_"):
+        return "sg.ld"
+    return label
+
+
+def plan_c(m, proj):
+    """argv tail (without -o / --dependency-file), required logical files, and the paths whose
+    resolution by the OS the family knows outright (relative to proj or absolute)."""
+    args, req, opt = member_plan(m)
+    sp, ab = m["spelling"], m["abs"]
+    sid = spid_of(sp, ab, m["decoy"])
+    sites = set(m["sites"])
+    seen, out, known = {}, [], []
+    for a in args:
+        if a == "-lzz":
+            seen[a] = seen.get(a, 0) + 1
+            if seen[a] == 2 and m["dupmode"] == 2 and "lib" in sites:
+                a = "L/libzz.a"
+                known.append(a)
+            out.append(a)
+            continue
+        if "@" not in a:
+            out.append(a)
+            continue
+        pre, _, rel = a.partition("@")
+        seen[rel] = seen.get(rel, 0) + 1
+        second_plain = m["dupmode"] == 2 and seen[rel] == 2
+        site = TOKEN_SITE.get(rel)
+        if second_plain or site is None:
+            path = rel
+        elif site in sites:
+            path = spelled(sp, ab, proj, rel)
+        elif rel == "ta.a" and "thin-member" in sites:
+            path = f"tq_{sid}.a"
+            known.append(spelled(sp, ab, proj, "tm.o"))
+        elif rel in ("si.ld", "sg.ld") and "script-inner" in sites:
+            path = ("sq_" if rel == "si.ld" else "sgq_") + sid + ".ld"
+            known.append(spelled(sp, ab, proj, "si1.o"))
+        else:
+            path = rel
+        known.append(path + "/libzz.a" if rel == "L" else path)
+        out.append(pre + path)
+    return out, req, opt, known
+
+
+def member_argv_c(m, proj):
+    args, req, opt, known = plan_c(m, proj)
+    outrel, deprel = f"o/outc_{m['id']}", f"o/depc_{m['id']}.d"
+    argv = args + ["-o", outrel, f"--dependency-file={deprel}"]
+    return argv, outrel, os.path.join(proj, deprel), os.path.join(proj, outrel), req, known
+
+
+def stat_id(proj, p):
+    """(dev, ino) of the regular file that name p denotes for a process running in proj."""
+    import stat as st_
+    try:
+        st = os.stat(p if os.path.isabs(p) else proj + "/" + p)
+    except OSError:
+        return None
+    return (st.st_dev, st.st_ino) if st_.S_ISREG(st.st_mode) else None
+
+
+def cross_check(t, m, req, known, read):
+    """Does the observation agree with what the family knows? Returns a reason or None."""
+    for p in known:
+        i = stat_id(t.proj, p)
+        if i is None:
+            return f"family error: {p} is not a file"
+        if i not in read:
+            return f"{p} ({t.label.get(i)}) was named but its access time did not change"
+    got = {logical_of(t.label[i]) for i in read}
+    for r in req:
+        if r not in got:
+            return f"no copy of {r} was observed as read"
+    return None
+
+
+def kind_c(t, ident):
+    lab = t.label.get(ident)
+    return FILE_KIND.get(logical_of(lab), "unknown") if lab else "unknown"
+
+
+def judge_c(m, t, target, deptext, rules, read):
+    """Findings (finding, what) for a part C member. Every name is resolved by the OS from the
+    directory make runs in; files are identified by (st_dev, st_ino)."""
+    out = []
+    prereq_strs = rules.get(target)
+    if prereq_strs is None:
+        others = [x for x, p in rules.items() if any(p)]
+        return [("target:not-the-output-path", f"no rule for target '{target}' (make sees rules "
+                 f"with prerequisites for {others[:3]})")]
+    if count_rule_lines(deptext, target) != 1:
+        out.append(("target:several-rules",
+                    f"{count_rule_lines(deptext, target)} rule lines for '{target}'"))
+    listed = split_names(" ".join(prereq_strs), set(rules))
+    if listed is None:
+        return [("depfile:ambiguous-names", f"cannot split '{prereq_strs}' into make's names")]
+    by_id, notfile = {}, []
+    for p in listed:
+        i = stat_id(t.proj, p)
+        if i is None:
+            notfile.append(p)
+        else:
+            by_id.setdefault(i, []).append(p)
+    missing = sorted(t.label[i] for i in read if i not in by_id)
+    others = {i: n for i, n in by_id.items() if i not in read}
+    out_id = stat_id(t.proj, target)
+
+    def lab(i):
+        return "the output" if i == out_id else (t.label.get(i) or "a file outside the tree")
+
+    other_txt = "; ".join(f"'{n[0]}' denotes {lab(i)}" for i, n in sorted(others.items()))
+    if missing:
+        mk = "+".join(sorted({FILE_KIND.get(logical_of(x), "unknown") for x in missing}))
+        if others:
+            out.append(("names-other-file", f"the link read {missing}, which no prerequisite "
+                        f"denotes; instead {other_txt}, which the link did not read"))
+        if notfile:
+            out.append(("listed-not-a-file", f"the link read {missing}, which no prerequisite "
+                        f"denotes; prerequisites {notfile} do not exist"))
+        if not others and not notfile:
+            out.append((f"missing:{mk}", f"the link read {missing}, which no prerequisite "
+                        f"denotes"))
+    else:
+        for i, n in sorted(others.items()):
+            k = "output" if i == out_id else kind_c(t, i)
+            out.append((f"extra:{k}", f"'{n[0]}' denotes {lab(i)}, which the link did not read"))
+        if notfile:
+            out.append(("listed-not-a-file", f"prerequisites {notfile} do not exist"))
+    for i, names in sorted(by_id.items()):
+        if len(names) > 1:
+            if len(set(names)) == 1:
+                out.append((f"duplicate:{kind_c(t, i)}",
+                            f"{lab(i)} is listed {len(names)} times as '{names[0]}'"))
+            else:
+                out.append((f"same-file-under-two-names:{kind_c(t, i)}",
+                            f"{lab(i)} (one file, read under two spellings) is listed "
+                            f"{len(names)} times under different names {names} (a violation "
+                            f"only if 'once each' counts files rather than names)"))
+    return out
+
+
+_TREES = {}
+
+
+def tree_for(base, decoy, so_paths):
+    key = (base, decoy)
+    if key not in _TREES:
+        root = os.path.join(base, "spell", f"w{os.getpid()}", "D" if decoy else "N")
+        _TREES[key] = build_tree(root, decoy, so_paths)
+    return _TREES[key]
+
+
+def link_and_judge_c(t, members, link):
+    """link(argv, cwd) -> (rc, message). Returns [(id, status, findings, deptext)]."""
+    results, linked = [], []
+    for m in members:
+        argv, target, deppath, outpath, req, known = member_argv_c(m, t.proj)
+        for p in (deppath, outpath):
+            try:
+                os.unlink(p)
+            except OSError:
+                pass
+        t.reset_atimes()
+        rc, msg = link(argv, t.proj)
+        read = files_read(t)
+        if rc != 0:
+            results.append((m["id"], f"link-failed rc={rc}: {msg[:200]}", [], ""))
+            continue
+        if not os.path.exists(deppath):
+            results.append((m["id"], "ok", [("depfile:not-written", "link succeeded without "
+                                              "writing the dependency file")], ""))
+            continue
+        why = cross_check(t, m, req, known, read)
+        if why:
+            results.append((m["id"], f"observation-disagrees: {why}", [], ""))
+            continue
+        linked.append((m, target, deppath, outpath, read))
+    if linked:
+        rc, db, err = run_make([x[2] for x in linked], t.proj)
+        groups = [linked]
+        if rc == 2 or "***" in err:
+            groups = [[x] for x in linked]
+        for g in groups:
+            if len(groups) > 1:
+                rc, db, err = run_make([x[2] for x in g], t.proj)
+            rules = parse_make_db(db)
+            for m, target, deppath, outpath, read in g:
+                with open(deppath) as f:
+                    deptext = f.read()
+                if rc == 2 or "***" in err:
+                    finds = [("depfile:make-parse-error", err.strip()[-200:])]
+                else:
+                    finds = judge_c(m, t, target, deptext, rules, read)
+                results.append((m["id"], "ok", finds, deptext if finds else ""))
+        for _, _, deppath, outpath, _ in linked:
+            for p in (deppath, outpath):
+                try:
+                    os.unlink(p)
+                except OSError:
+                    pass
+    return results
+
+
+def _server(argv, cwd):
+    return wildrun.server_link(argv, cwd=cwd)
+
+
+def run_batch_c(job):
+    base, so_paths, members, deadline = job
+    if time.time() > deadline:
+        return [(m["id"], "skipped-cap", [], "") for m in members]
+    results = []
+    for decoy in (True, False):
+        ms = [m for m in members if m["decoy"] == decoy]
+        if not ms:
+            continue
+        t = tree_for(base, decoy, so_paths)
+        if not t.atime_works:
+            return [(m["id"], "observation-unavailable", [], "") for m in members]
+        results.extend(link_and_judge_c(t, ms, _server))
+    results.append((None, "finished-at", [], time.time()))
+    return results
+
+
+def run_job(job):
+    kind, payload = job
+    return run_batch_c(payload) if kind == "C" else run_batch(payload)
+
+
+def _gnu_ld(argv, cwd):
+    rc, _, err = vlib.run(["ld", *argv], cwd=cwd)
+    return rc, err.decode("utf-8", "replace")
+
+
+def gnu_ld_on_spellings(job):
+    """Oracle validation: GNU ld's dependency file of the all-sites member of one spelling variant
+    must be accepted by the same judge (same observation of the files read)."""
+    base, so_paths, m = job
+    t = tree_for(base, m["decoy"], so_paths)
+    (_, status, finds, _), = link_and_judge_c(t, [m], _gnu_ld)
+    return spid_of(m["spelling"], m["abs"], m["decoy"]), status, sorted(k for k, _ in finds)
+
+
+def part_c_members(thorough):
+    """Single-site members: site x spelling variant x once/twice/twice-mixed x exe/shared (x the
+    second flavour on the three sites it concerns); plus the two all-sites members per variant."""
+    ms = []
+
+    def add(sites, name, sp, ab, decoy, dupmode, shared, flavor):
+        carriers = {SITE_CARRIER.get(s, s) for s in sites} if len(sites) == 1 else set(CARRIERS)
+        mask = sum(1 << i for i, c in enumerate(CARRIERS) if c in carriers)
+        ms.append(dict(part="C", sites=sorted(sites), site=name, spelling=sp, decoy=decoy,
+                       dupmode=dupmode, mask=mask, dup=dupmode > 0, abs=ab, shared=shared,
+                       used=True, flavor=flavor, blank=False))
+
+    for sp, ab, decoy in spell_variants():
+        groups = [([s], s) for s in SITES] + [(OUTER_SITES, "all"), (ALL_INNER_SITES, "all-inner")]
+        for sites, name in groups:
+            for dupmode in (0, 1, 2):
+                if dupmode == 2 and (sp == "plain" and not ab or not decoy):
+                    continue    # same as twice-same / no plain copy exists
+                if dupmode and name in ("version-script", "export-list"):
+                    continue    # these options are not repeated by the family
+                for shared in (False, True):
+                    flavors = (0, 1) if name in ("script-input", "script-inner", "export-list",
+                                                 "all", "all-inner") else (0,)
+                    for flavor in flavors:
+                        if not thorough and (flavor or shared) and dupmode:
+                            continue
+                        if not thorough and flavor and shared:
+                            continue
+                        add(sites, name, sp, ab, decoy, dupmode, shared, flavor)
+    return ms
+
+
+def key_c(m, finding):
+    cls, _, kind = finding.partition(":")
+    if m["dupmode"] == 2 and cls in ("duplicate", "same-file-under-two-names"):
+        # The command line itself names one file by two different names and the link reads it
+        # under both. Whether listing it under both names breaks "once each" depends on whether
+        # that phrase counts files or names: one key per kind, apart from every other finding.
+        return f"named-twice-under-two-names:{kind}:listed-under-both-names"
+    return f"spelling:{spid_of(m['spelling'], m['abs'], m['decoy'])}:{m['site']}:{finding}"
+
+
 def all_members(thorough):
     members = []
     variants = [(u, fl) for u in (True, False) for fl in (0, 1)] if thorough else [(True, 0)]
@@ -430,9 +933,13 @@ def all_members(thorough):
             for shared in (False, True):
                 members.append(dict(mask=mask, dup=False, abs=ab, shared=shared, used=True,
                                     flavor=0, blank=True))
+    for m in members:
+        m.setdefault("blank", False)
+        m["part"] = "B" if m["blank"] else "A"
+    # Part C: the spelling of the paths.
+    members.extend(part_c_members(thorough))
     for i, m in enumerate(members):
         m["id"] = i
-        m.setdefault("blank", False)
     return members
 
 
@@ -442,13 +949,70 @@ def twin_key(m):
 
 def describe(m):
     cs = [c for i, c in enumerate(CARRIERS) if m["mask"] >> i & 1]
+    if m.get("part") == "C":
+        return {"part": "C (path spelling)", "spelled_sites": m["site"],
+                "spelling": spid_of(m["spelling"], m["abs"], m["decoy"]),
+                "example": spelled(m["spelling"], m["abs"], "$TREE/proj", "X"),
+                "decoy_at_lexically_folded_name": m["decoy"], "carriers": cs,
+                "each_file": DUPMODES[m["dupmode"]], "output": "shared" if m["shared"] else "exe",
+                "flavor": ["INPUT+--dynamic-list",
+                           "GROUP+--export-dynamic-symbol-list"][m["flavor"]]}
     return {"carriers": cs, "twice": m["dup"], "paths": "absolute" if m["abs"] else "relative",
             "output": "shared" if m["shared"] else "exe", "referenced": m["used"],
             "flavor": ["INPUT+--dynamic-list", "GROUP+--export-dynamic-symbol-list"][m["flavor"]],
             "inputs_in_directory_with_blank": bool(m.get("blank"))}
 
 
+C_KEYS = ("part", "sites", "site", "spelling", "decoy", "dupmode", "mask", "dup", "abs", "shared",
+          "used", "flavor", "blank")
+TREE_DOC = (
+    "$TREE/proj is the working directory. $TREE/proj/X = home copy of every carrier X (absent in "
+    "members with decoy_at_lexically_folded_name=false), $TREE/store/v1/X, $TREE/store/alt/X, "
+    "$TREE/store/files/X = other copies with different content (objects: one more nop; texts: one "
+    "more newline). proj/rd = empty real directory; proj/sd -> ../store/alt; proj/sl -> "
+    "../store/v1/objs (an empty directory, so proj/sl/.. is store/v1); proj/fl/X -> "
+    "../../store/files/X. X in o1.o ra.a(ra1.o ra2.o) ta.a(thin: tm.o) tm.o si.ld sg.ld si1.o "
+    "ts.ld vs.txt dl.txt L/libzz.a(zz.o) s1.so; main.o r_ar.o r_thin.o r_lib.o r_so.o only in "
+    "proj. proj/tq_<spelling>.a = thin archive whose member name is the spelled path of tm.o; "
+    "proj/sq_<spelling>.ld = INPUT(<spelled path of si1.o>), sgq_ = GROUP(...). Before the link "
+    "every file's atime is set to 1970; a file whose atime changed was read. Oracle: the set of "
+    "(st_dev, st_ino) of the prerequisites make sees, stat()ed from proj, must equal the set of "
+    "files read, each once. Simplest: ./check C25 --replay <this file>.")
+
+
+def replay_doc_c(m):
+    argv, target, _, _, req, known = member_argv_c(dict(m, id="R"), "$TREE/proj")
+    return {"member": {k: m[k] for k in C_KEYS}, "describe": describe(m), "argv": argv,
+            "cwd": "$TREE/proj", "target": target, "logical_files_required": sorted(req),
+            "names_the_family_resolves_itself": known, "sources": SOURCES, "texts": TEXTS,
+            "tree": TREE_DOC}
+
+
+def replay_c(chk, doc, m):
+    with vlib.scratch("c25r") as base:
+        so_paths = build_so_variants(os.path.join(base, "so"))
+        t = tree_for(base, m["decoy"], so_paths)
+        if not t.atime_works:
+            chk.machinery("access times are not updated on this file system")
+        argv = member_argv_c(m, t.proj)[0]
+
+        def link(argv, cwd):
+            rc, _, err = wildrun.link_subprocess(["--no-fork", *argv], cwd=cwd)
+            return rc, err.decode("utf-8", "replace")
+        print("tree:", t.root, "(removed on exit)\ncd proj; wild", " ".join(argv))
+        (_, status, finds, deptext), = link_and_judge_c(t, [m], link)
+        print("status:", status)
+        print(deptext)
+        for k, w in finds:
+            print("FINDING", key_c(m, k), w)
+        bad = any(key_c(m, k) == doc["key"] for k, _ in finds)
+        print("REPRODUCED" if bad else "not reproduced")
+        sys.exit(1 if bad else 0)
+
+
 def replay_doc(m):
+    if m.get("part") == "C":
+        return replay_doc_c(m)
     argv, target, _, _, req, opt = member_argv(dict(m, id="R"), "$IN")
     return {"member": {k: m[k] for k in ("mask", "dup", "abs", "shared", "used", "flavor",
                                          "blank")},
@@ -465,6 +1029,8 @@ def replay(chk, path):
     with open(path) as f:
         doc = json.load(f)
     m = dict(doc["replay"]["member"], id=0)
+    if m.get("part") == "C":
+        replay_c(chk, doc, m)
     with vlib.scratch("c25r") as base:
         indir = os.path.join(base, "in")
         m.setdefault("blank", False)
@@ -509,23 +1075,50 @@ def main():
         indir_b = os.path.join(base, "inb")
         build_inputs(indir_b, BLANK_SUB)
         blank_opinion = other_linkers_on_blank(indir_b)
-        part_a = [m for m in members if not m["blank"]]
-        part_b = [m for m in members if m["blank"]]
+        part_a = [m for m in members if m["part"] == "A"]
+        part_b = [m for m in members if m["part"] == "B"]
+        part_c = [m for m in members if m["part"] == "C"]
+        so_paths = build_so_variants(os.path.join(base, "so"))
         # Wall cap for the whole check, enforced here; members not linked by then are reported.
-        deadline = chk.t0 + (840 if chk.thorough else 36)
+        deadline = chk.t0 + (840 if chk.thorough else 32)
         full = (1 << len(CARRIERS)) - 1
         # Single-carrier and full members first (they matter most if the cap hits).
         part_a.sort(key=lambda m: (not (bin(m["mask"]).count("1") == 1 or m["mask"] == full),
                                    m["id"]))
-        jobs = [(indir_b, part_b[i:i + BATCH], deadline) for i in range(0, len(part_b), BATCH)]
-        jobs += [(indir, part_a[i:i + BATCH], deadline) for i in range(0, len(part_a), BATCH)]
+        # Part C goes first: it is small and must never be the part the wall cap removes.
+        jobs = [("C", (base, so_paths, part_c[i:i + BATCH], deadline))
+                for i in range(0, len(part_c), BATCH)]
+        jobs += [("AB", (indir_b, part_b[i:i + BATCH], deadline))
+                 for i in range(0, len(part_b), BATCH)]
+        jobs += [("AB", (indir, part_a[i:i + BATCH], deadline))
+                 for i in range(0, len(part_a), BATCH)]
         results = []
-        for rs in wildrun.pmap(run_batch, jobs, chunksize=1):
+        for rs in wildrun.pmap(run_job, jobs, chunksize=1):
             results.extend(rs)
+        t_parts = time.time() - chk.t0
+        t_part_c = max([r[3] for r in results if r[1] == "finished-at"], default=chk.t0) - chk.t0
+        results = [r for r in results if r[1] != "finished-at"]
+        # Oracle validation for part C: GNU ld's own dependency files under the same judge. (GNU
+        # ld cannot link the all-sites member with -T, so that site gets a member of its own.)
+        tbit = 1 << CARRIERS.index("script-T")
+        ld_c = [dict(m, id=f"ld{m['id']}", mask=m["mask"] & ~tbit if m["site"] == "all"
+                     else m["mask"])
+                for m in part_c if m["site"] in ("all", "script-T") and not m["dupmode"] and
+                not m["shared"] and not m["flavor"]]
+        # ... and what GNU ld does when the command line names one archive by two names.
+        ld_c += [dict(m, id=f"ld{m['id']}") for m in part_c
+                 if m["site"] == "ar" and m["dupmode"] == 2 and not m["shared"] and
+                 (m["spelling"], m["abs"]) in (("plain", True), ("realdir-dotdot", False))]
+        ld_on_spellings = [(m["site"] + (":two-names" if m["dupmode"] else ""), *r)
+                           for m, r in zip(ld_c, vlib.pmap(
+                               gnu_ld_on_spellings, [(base, so_paths, m) for m in ld_c],
+                               chunksize=1))]
+        ld_two_names = [x[1:] for x in ld_on_spellings if x[0].endswith(":two-names")]
+        ld_on_spellings = [x for x in ld_on_spellings if not x[0].endswith(":two-names")]
         # GNU ld's opinion: thorough asks about every carrier, quick only about the carriers of
         # kinds that were found missing and that the property text does not name.
         missing_kinds = {k.split(":", 1)[1] for mid, st, finds, _ in results
-                         if st == "ok" and not by_id[mid]["blank"]
+                         if st == "ok" and by_id[mid]["part"] == "A"
                          for k, _ in finds if k.startswith("missing:")}
         kind_carrier = {"thin-archive-index": "thin", "archive-unused": "ar",
                         "lib-search-archive-unused": "lib", "shared-object": "so",
@@ -536,7 +1129,7 @@ def main():
         # Server and subprocess must write the same dependency file.
         same = 0
         probe = [m for m in members if not m["dup"] and m["used"] and m["flavor"] == 0 and
-                 not m["blank"] and not m["abs"] and
+                 m["part"] == "A" and not m["abs"] and
                  (bin(m["mask"]).count("1") == 1 or m["mask"] == (1 << len(CARRIERS)) - 1)]
         for m in probe[:: 1 if chk.thorough else 4]:
             argv, _, deppath, outpath, _, _ = member_argv(m, indir, tag="p")
@@ -550,9 +1143,26 @@ def main():
                 chk.machinery(f"server and subprocess disagree on {describe(m)}: {rc1} {rc2} "
                               f"{msg[:100]} {err[-100:]}")
             same += 1
+        # The same for part C members (one per site, the spelling the seeded class needs).
+        same_c = 0
+        probe_c = [m for m in part_c if m["spelling"] == "symlinkdir-dotdot" and m["decoy"] and
+                   not m["abs"] and not m["dupmode"] and not m["shared"] and not m["flavor"]]
+        for m in probe_c[:: 1 if chk.thorough else 4]:
+            t = tree_for(base, True, so_paths)
+            argv, _, deppath, outpath, _, _ = member_argv_c(dict(m, id=f"p{m['id']}"), t.proj)
+            rc1, msg = wildrun.server_link(argv, cwd=t.proj)
+            d1 = open(deppath).read() if rc1 == 0 else None
+            if d1 is not None:
+                os.unlink(deppath)
+            rc2, _, err = wildrun.link_subprocess(argv, cwd=t.proj)
+            d2 = open(deppath).read() if rc2 == 0 else None
+            if (rc1 == 0) != (rc2 == 0) or d1 != d2:
+                chk.machinery(f"server and subprocess disagree on {describe(m)}: {rc1} {rc2} "
+                              f"{msg[:100]} {err[-100:]}")
+            same_c += 1
     twin_finds = {twin_key(by_id[mid]): {k for k, _ in finds}
                   for mid, status, finds, _ in results if status == "ok" and
-                  not by_id[mid]["blank"]}
+                  by_id[mid]["part"] == "A"}
     skipped = sum(1 for r in results if r[1] == "skipped-cap")
     results = [r for r in results if r[1] != "skipped-cap"]
     link_failed = {}
@@ -561,8 +1171,42 @@ def main():
     shapes = set()
     samples = []
     viol_keys = {}
+    c_stats = {"members": 0, "judged": 0, "link_failed": {}, "by_spelling": {},
+               "expected_failures_same_file_linked_twice_under_two_names": 0}
+    disagreements = []
     for mid, status, finds, deptext in results:
         m = by_id[mid]
+        if m["part"] == "C":
+            c_stats["members"] += 1
+            sid = spid_of(m["spelling"], m["abs"], m["decoy"])
+            if status == "observation-unavailable":
+                chk.machinery("access times are not updated on the scratch file system; the "
+                              "observation of the files a link read is not available")
+            if status.startswith("observation-disagrees"):
+                disagreements.append((describe(m), status))
+                continue
+            if status != "ok":
+                reason = status.split(":", 1)[1].strip()[:80]
+                if m["dupmode"] == 2 and "uplicate" in status:
+                    c_stats["expected_failures_same_file_linked_twice_under_two_names"] += 1
+                else:
+                    c_stats["link_failed"][reason] = c_stats["link_failed"].get(reason, 0) + 1
+                continue
+            c_stats["judged"] += 1
+            c_stats["by_spelling"][sid] = c_stats["by_spelling"].get(sid, 0) + 1
+            if c_stats["judged"] <= 3:
+                samples.append({"member": describe(m),
+                                "argv": member_argv_c(m, "$TREE/proj")[0],
+                                "findings": [k for k, _ in finds]})
+            for finding, what in finds:
+                key = key_c(m, finding)
+                if key.startswith("named-twice-under-two-names:"):
+                    what += (f" [GNU ld 2.40 on an archive named by two names: "
+                             f"{[x[2] for x in ld_two_names]}]")
+                viol_keys[key] = viol_keys.get(key, 0) + 1
+                chk.violation(key, f"{what}; member {describe(m)}; dependency file: "
+                              f"{deptext.splitlines()[0][:300] if deptext else ''}", replay_doc(m))
+            continue
         if status != "ok":
             reason = status.split(":", 1)[1].strip()[:80]
             link_failed[reason] = link_failed.get(reason, 0) + 1
@@ -596,19 +1240,58 @@ def main():
             viol_keys[key] = viol_keys.get(key, 0) + 1
             chk.violation(key, f"{what}; member {describe(m)}; dependency file: "
                           f"{deptext.splitlines()[0][:300] if deptext else ''}", replay_doc(m))
-    if judged < len(results) * 0.9 or judged < 2:
-        chk.machinery(f"only {judged} of {len(results)} members linked: {link_failed}")
+    if disagreements:
+        chk.machinery(f"{len(disagreements)} part C members: the observed set of files read "
+                      f"contradicts what the family knows, e.g. {disagreements[:2]}")
+    n_ab = len(results) - c_stats["members"]
+    if judged < n_ab * 0.9 or judged < 2:
+        chk.machinery(f"only {judged} of {n_ab} members linked: {link_failed}")
+    c_unexpected = sum(c_stats["link_failed"].values())
+    if c_stats["members"] and (c_unexpected > 0.1 * c_stats["members"] or c_stats["judged"] < 2):
+        chk.machinery(f"part C: only {c_stats['judged']} of {c_stats['members']} members linked: "
+                      f"{c_stats['link_failed']}")
+    # GNU ld has habits of its own (an INPUT script listed twice, thin members not listed); what
+    # matters here is that no spelling makes the judge find more than the plain spelling does.
+    ld_plain = {site: set(finds) for site, sid, status, finds in ld_on_spellings
+                if sid == "plain" and status == "ok"}
+    ld_bad = [x for x in ld_on_spellings
+              if x[2] != "ok" or x[0] not in ld_plain or set(x[3]) - ld_plain[x[0]]]
+    judged += c_stats["judged"]
     chk.coverage = {
         "evaluations": len(results), "distinct_nontrivial": judged,
-        "rule": "one member per (non-empty subset of 9 carriers, once/twice, relative/absolute, "
-                "exe/shared, referenced/unreferenced, flavour); all distinct by construction; "
-                "non-trivial = wild linked it and wrote a dependency file that GNU make parsed",
+        "rule": "part A/B: one member per (non-empty subset of 9 carriers, once/twice, "
+                "relative/absolute, exe/shared, referenced/unreferenced, flavour); part C: one "
+                "member per (spelled site or all sites, spelling, relative/absolute, decoy at the "
+                "lexically folded name or not, once/twice/twice under two names, exe/shared, "
+                "flavour); all distinct by construction; non-trivial = wild linked it and wrote "
+                "a dependency file that GNU make parsed",
         "members": len(members), "judged": judged, "link_failed": link_failed,
         "distinct_input_shapes": len(shapes),
         "carriers": CARRIERS, "exhaustive": skipped == 0,
         "capped": skipped > 0, "members_not_linked_because_of_wall_cap": skipped,
         "thinned": None if chk.thorough else "referenced/unreferenced and flavour variants only "
-                   "on the 9 single-carrier members and the full member",
+                   "on the 9 single-carrier members and the full member; part C: the twice "
+                   "variants only for exe + first flavour, the second flavour only for exe",
+        "part_c_spelling": {
+            "sites": SITES + ["all", "all-inner"], "spellings": SPELL_FMT,
+            "variants": [spid_of(*v) for v in spell_variants()],
+            "members": c_stats["members"], "judged": c_stats["judged"],
+            "judged_by_spelling": c_stats["by_spelling"],
+            "link_failed": c_stats["link_failed"],
+            "expected_failures_same_file_linked_twice_under_two_names":
+                c_stats["expected_failures_same_file_linked_twice_under_two_names"],
+            "files_read_observed_by": "access time of every regular file of a private tree",
+            "gnu_ld_depfiles_under_the_same_judge": {
+                "members": len(ld_on_spellings),
+                "no_finding_beyond_those_of_the_plain_spelling":
+                    len(ld_on_spellings) - len(ld_bad),
+                "findings_with_the_plain_spelling": {k: sorted(v) for k, v in ld_plain.items()},
+                "others": ld_bad[:8],
+                "archive_named_twice_under_two_names": ld_two_names},
+            "wall_s_until_part_c_linked_and_judged": round(t_part_c, 1),
+            "server_vs_subprocess_identical_depfiles": same_c,
+        },
+        "wall_s_until_all_members_linked": round(t_parts, 1),
         "gnu_ld_lists_kind": ld_lists, "gnu_ld_detail": ld_detail[:40],
         "missing_excused_because_gnu_ld_omits_kind_too": excused,
         "violations_by_key": viol_keys,
@@ -619,7 +1302,10 @@ def main():
     }
     chk.assumptions = [
         "GNU make 4.3 `make -rR -pq` is the reader of the dependency file (names without blanks)",
-        "prerequisites are compared after realpath() against the link's working directory",
+        "part A/B: prerequisites are compared after realpath() against the link's working "
+        "directory; part C: by (st_dev, st_ino) of stat() from the link's working directory",
+        "part C: a file was read iff its access time changed during the link (tmpfs, relatime; "
+        "self-tested per tree: read() and mmap() update it, open() and stat() do not)",
         "no linker plugin is involved, so no temporary inputs exist in this family",
         "for kinds the property text does not name (shared objects, unreferenced archives, the "
         "thin-archive index file) a missing entry is a violation only if GNU ld 2.40 lists that "
